@@ -77,6 +77,14 @@ var classWeights = map[string][9]int{
 	"resize":    {8, 4, 3, 24, 14, 8, 6, 2, 31},
 	"recency":   {24, 14, 9, 18, 10, 16, 5, 1, 3},
 	"malformed": {10, 5, 4, 28, 18, 10, 8, 2, 15},
+	"fault":     {10, 6, 3, 30, 22, 10, 6, 1, 5},
+}
+
+func maxI64(a, b int64) int64 {
+	if a > b {
+		return a
+	}
+	return b
 }
 
 var seqClasses = []string{"mix", "evict", "inplace", "resize", "recency", "malformed"}
@@ -266,6 +274,13 @@ func runSeq(s spec) ([]seqStep, []heldSlice) {
 	c := newLRU(s.Variant, s.Cap, s.KK, s.Facade)
 	steps := make([]seqStep, 0, len(s.Ops))
 	for i, o := range s.Ops {
+		if o.F != 0 {
+			if pk, appl := faultCall(c, o); appl && !pk {
+				stat.faultsNotPanicking++
+			} else if appl {
+				stat.faults++
+			}
+		}
 		c.Hold(true, false)
 		out := doOp(c, o)
 		c.Hold(false, i%4 == 1)
@@ -321,6 +336,13 @@ func genSeq(rnd *rand.Rand, variant, class string, length int) spec {
 	live := newLRU(variant, s.Cap, s.KK, s.Facade)
 	for i := 0; i < length; i++ {
 		o := g.next(live)
+		if class == "fault" && variant == "std" && rnd.Intn(3) == 0 {
+			// a faulted call on a key of the universe (present or absent), observed through a Peek of that key
+			o = opRec{Code: opPeek, K: o.K, F: 1 + rnd.Intn(3)}
+			if o.K < 0 || o.K >= g.nk {
+				o.K = rnd.Int63n(maxI64(g.nk, 1))
+			}
+		}
 		doOp(live, o)
 		s.Ops = append(s.Ops, o)
 	}
@@ -576,6 +598,7 @@ type tally struct {
 	firstBatches, firstTrials, firstAnomalies                                             int
 	churnRounds, hungUnits                                                                int
 	siaRounds, siaAnomalies                                                               int
+	faults, faultsNotPanicking                                                            int
 }
 
 var stat = tally{opHist: map[string]int{}, shardHist: map[string]int{}}
@@ -1021,6 +1044,14 @@ func main() {
 				emitSpec(e, spec{Kind: "churn", Churn: &b}, &unresolved)
 			}
 		}
+		// class fault (after every other class: their random streams are unchanged): sequential histories on
+		// cache.LRUCache in which a third of the calls are Set / SetAndGetRemoved with a value whose Size() panics
+		for i, m := 0, boost("seq/std/fault", scale(60, 600)); i < m; i++ {
+			rnd, n := rand.New(rand.NewSource(e.Rnd.Int63())), length()
+			guard(e, "std", 0, "seq/std/fault", true, func() []vh.Case { return produce(genSeq(rnd, "std", "fault", n), &unresolved) })
+		}
+		e.Meta["seq_faulted_calls_that_panicked_and_were_recovered"] = stat.faults
+		e.Meta["seq_faulted_calls_that_did_not_panic"] = stat.faultsNotPanicking
 		e.Meta["churn_rounds"] = stat.churnRounds
 		e.Meta["units_abandoned_because_a_call_did_not_return"] = stat.hungUnits
 		e.Meta["generation_stopped_after_blocked_calls"] = aborted
